@@ -307,7 +307,7 @@ def gen_ext(rng, hostile):
     labels = cfg["labels"]
     ntab = rng.choice([1, 1, 1, 2, 3])
     tables = []
-    number = rng.choice([1, 1, 1, 2, 11])
+    number = rng.choice([1, 1, 1, 2, 11, 100, 12345, 99998])
     for _ in range(ntab):
         objname = rng.choice(["OBJ", "OBJ", "OBJ", "SAEMOBJ", "MCMCOBJ"])
         names = ["ITERATION"] + labels + [objname]
@@ -371,7 +371,8 @@ def gen_phi(rng, hostile):
     neta = rng.randint(1, 4)
     ntab = rng.choice([1, 1, 2])
     tables = []
-    for k in range(ntab):
+    base = rng.choice([0, 0, 9, 98, 4711])
+    for k in range(base, base + ntab):
         em = rng.random() < 0.3
         e, c = ("PHI", "PHC") if em else ("ETA", "ETC")
         names = ["SUBJECT_NO", "ID"] + [f"{e}({i})" for i in range(1, neta + 1)] + tri_labels(c, neta) + ["OBJ"]
@@ -408,7 +409,7 @@ def gen_cov(rng, hostile):
     names = ["NAME"] + labels
     cols = [[13, "l"]] + [[13, "r"]] * n
     rows = [[["l", labels[i]]] + m[i] for i in range(n)]
-    tables = [{"number": rng.choice([1, 1, 2]), "now": 6, "title": gen_title(rng), "hw": 13, "names": names, "cols": cols,
+    tables = [{"number": rng.choice([1, 1, 2, 10, 321]), "now": 6, "title": gen_title(rng), "hw": 13, "names": names, "cols": cols,
                "rows": rows, "repeat": 0}]
     return {"kind": "cov", "suffix": suffix, "tables": tables}
 
@@ -426,7 +427,8 @@ def gen_generic(rng, hostile):
     wide = rng.random() < 0.3      # FORMAT=s1PE13.5
     w, d = (13, 5) if wide else (12, 4)
     tables = []
-    for k in range(ntab):
+    base = rng.choice([0, 0, 0, 8, 41, 97])
+    for k in range(base, base + ntab):
         nrow = rng.randint(0 if not nolabel else 1, 12)
         rows = [[gen_sci(rng, d=d, zero_p=0.15, wide=hostile and rng.random() < 0.1) for _ in range(ncol)] for _ in range(nrow)]
         tables.append({"number": k + 1, "now": 3, "title": None, "hw": w, "names": names, "cols": [[w, "r"]] * ncol,
@@ -605,6 +607,8 @@ def is_nan(v):
 
 def same(tok, v):
     """model token vs value read by the code"""
+    if np.ndim(v) != 0:
+        return False
     if isinstance(v, str):
         return v == tok
     if tok == "":
@@ -621,6 +625,8 @@ def same(tok, v):
 
 def same_exact(frac, v):
     """expected exact value (Fraction or label) vs value read by the code"""
+    if np.ndim(v) != 0:
+        return False
     if isinstance(frac, str):
         return isinstance(v, str) and v == frac
     if isinstance(v, str) or is_nan(v):
@@ -811,7 +817,7 @@ def compare_model(case, lines, tf, ferr, drv, k, tags):
             else:
                 cmp_frame(f"table {n} ext.data_frame", mviews[1], df, k)
             for (name, mval) in mviews[2]:
-                cmp_ext_prop(name, POSTS[name], mval, t, k, tags)
+                cmp_ext_prop(name, POSTS.get(name, "series"), mval, t, k, tags)
             try:
                 cit = t.iterations
                 ierr = None
@@ -909,12 +915,21 @@ def compare_phi(n, mviews, t, k, tags):
 
 
 POSTS = {}
+DOCUMENTED_POSTS = {"final_parameter_estimates": "series", "standard_errors": "series", "condition_number": "first-value",
+                    "omega_sigma_stdcorr": "series", "omega_sigma_se_stdcorr": "series", "fixed": "apply-bool",
+                    "final_ofv": "series", "initial_ofv": "series"}
 
 
 def _load_posts():
+    """post-processing kind of each ExtTable property (from the translator; when the translator refuses the
+    current source — already reported as a broken obligation — the documented kinds are used)"""
     from harness.translate import c20_extcodes
-    for name, getter, code, inc, fb, post in c20_extcodes.extract():
-        POSTS[name] = post
+    POSTS.update(DOCUMENTED_POSTS)
+    try:
+        for name, getter, code, inc, fb, post in c20_extcodes.extract():
+            POSTS[name] = post
+    except Exception:  # noqa
+        pass
 
 
 # ---------------------------------------------------------------- monitors (structured case vs real code; no Lean)
